@@ -377,6 +377,29 @@ def t_cases(rec, seed, tier):
         o_disable(rec, case)
 
     hyp_campaign(rec, body, cases, n, seed, shrink_budget=15)
+    # directed: what a shadow file can hold besides hashes
+    from passlib.context import CryptContext
+    from passlib.hash import unix_disabled
+
+    for schemes in (["md5_crypt", "unix_disabled"], ["sha256_crypt", "des_crypt", "unix_disabled"]):
+        ctx = CryptContext(schemes, **({"sha256_crypt__default_rounds": 1000} if "sha256_crypt" in schemes else {}))
+        # an empty password field is a disabled account: recognised, never enabled, never verifying, not raising
+        for empty in ("", b""):
+            rec.ev()
+            got = [call(unix_disabled.identify, empty), call(ctx.identify, empty), call(ctx.is_enabled, empty), call(ctx.verify, "pw", empty), call(ctx.verify, "", empty), call(ctx.verify_and_update, "pw", empty)]
+            want = [("ok", True), ("ok", "unix_disabled"), ("ok", False), ("ok", False), ("ok", False), ("ok", (False, None))]
+            if got != want:
+                rec.fail("C18/empty-field-not-disabled", "an empty stored field is not treated as a disabled account", "disable_enable",
+                         {"spec": {"schemes": schemes[:-1], "disabled": "unix_disabled", "pos": len(schemes) - 1}, "kind": "empty", "i": 0}, repr(got)[:300], repr(want)[:300], soft=True)
+                break
+        # a marker must itself be recognised as disabled, or disable() would hand out strings the context takes for something else
+        for bad in ("LK", "x", "$!", " !", "a*"):
+            rec.ev()
+            st2, r = call(lambda: CryptContext(schemes, unix_disabled__marker=bad).disable())
+            if not (st2 == "err" and isinstance(r, ValueError)):
+                rec.fail("C18/invalid-marker-accepted", f"unix_disabled marker {bad!r} (not starting with '!' or '*') is accepted", "disable_enable",
+                         {"spec": {"schemes": schemes[:-1], "disabled": "unix_disabled", "pos": len(schemes) - 1, "marker": bad}, "kind": "none", "i": 0}, repr(r), "ValueError", soft=True)
+                break
 
 
 def t_missing(rec, seed, tier):
